@@ -1,19 +1,21 @@
 """Which units decide which property. A failing obligation counts against property P when its name
 carries the tag `P.` (e.g. `C18.push-budget`, `C01,C11.conflict-ordered`) or, for untagged
-obligations, when P is among the unit's default properties below."""
+obligations (unnamed invariants, proof steps, body-safety), when P is among the unit's default
+properties below, or - for body-safety obligations (call preconditions incl. expect/unwrap,
+overflow, bounds, termination) - when the unit is listed in the property's `safety_units`."""
 
 # unit -> properties that untagged obligations of the unit count against
 UNIT_DEFAULT_PROPS = {
     "U1": ["C13"],
     "U2": ["C11"],
+    "U3": ["C02"],
+    "U4": ["C11"],
 }
 
-# property -> units (all feature sets of the unit are run) + extra engines
+# property -> units run (all feature sets of the unit), units whose panic-freedom counts for it
 PROPS = {
-    "C11": {"units": ["U2"]},
-    "C13": {"units": ["U1"]},
+    "C11": {"units": ["U1", "U2", "U3", "U4"], "safety_units": ["U1", "U2", "U3", "U4"]},
+    "C13": {"units": ["U1", "U4"]},
     "C18": {"units": ["U1"]},
     "C19": {"units": []},
 }
-
-# feature sets per unit come from units/<U>/unit.json ("feature_sets")
